@@ -542,6 +542,10 @@ func (f Field) GetType() string {
 	case *FixedStringFieldAttribute, *DynamicStringFieldAttribute:
 		return "string"
 	case *ObjectFieldAttribute:
+		if c.RefPacket == nil {
+			// not resolved yet (attributes are applied while the packet is still being parsed)
+			return c.PacketName
+		}
 		return c.RefPacket.Name
 	case *MatchFieldAttribute:
 		return "match"
